@@ -47,6 +47,23 @@ PROPS["C20"] = {
     "explanation": "",
 }
 
+PROPS["C01"] = {
+    "engines": ["S"],
+    "bounds": [],
+    "outside_bounds": [],
+    "stubs": [],
+    "assumptions": [],
+    "explanation": "",
+}
+PROPS["C17"] = {
+    "engines": ["S"],
+    "bounds": [],
+    "outside_bounds": [],
+    "stubs": [],
+    "assumptions": [],
+    "explanation": "",
+}
+
 HOOK_COMMITS = ["3b45d39", "83997c5"]
 
 # Every property that has no entry in PROPS is listed with its reason.
